@@ -80,7 +80,11 @@ PROPS = {
             'assumptions': ['the configured start block is >= 0 and Minter blocks are numbered consecutively from 1', 'the Minter API returns the blocks of a range in ascending order (as the scripted node does)']},
     'C08': {'gen': ['gen_srcfacts.py'],
             'suites': [{'name': 'evm', 'quick': '-n 150 -ops 30', 'thorough': '-n 3000 -ops 40', 'shards': {'quick': 4, 'thorough': 16}},
-                       {'name': 'sigset', 'quick': '-n 150 -ops 40', 'thorough': '-n 1500 -ops 60', 'shards': {'quick': 2, 'thorough': 16}}],
+                       {'name': 'sigset', 'quick': '-n 150 -ops 40', 'thorough': '-n 1500 -ops 60', 'shards': {'quick': 2, 'thorough': 16}},
+                       # hub side of "in nonce order": a signer set leaves the store only after a higher one was observed as executed
+                       {'name': 'sigprune', 'quick': '-n 150 -ops 40', 'thorough': '-n 2000 -ops 80', 'shards': {'quick': 1, 'thorough': 8}},
+                       # hub side of "in step": a batch is withdrawn only after its timeout height was observed on its chain
+                       {'name': 'hub', 'quick': '-n 100 -ops 60', 'thorough': '-n 800 -ops 120', 'shards': {'quick': 2, 'thorough': 16}}],
             'trusted_base': [
                 'translator bin/gen_srcfacts.py (regex based): regenerates coq/Gen/SrcFactsSol.v from solidity/contracts/Hub2.sol on every run: the ordered require conditions and state assignments of updateValset / submitBatch / transferToChain, '
                 'the three comparisons and the skeleton of the checkValidatorSignatures loop, the initial nonces; coq/Gen/SrcFactsGo.v: the Minter multisig threshold and weight expression of the connector. '
@@ -99,6 +103,8 @@ PROPS = {
                             'the hub stores a signer set in Sort() order, the order in which its attestation is stored and which the relayer presents as the current set (monitor C08/set-not-in-attested-order)',
                             'keccak256/abi.encode of (gravityId, "checkpoint", nonce, validators, powers) is injective (checkpoints compared as values)']},
     'C15': {'suites': [{'name': 'genesis', 'quick': '-n 150 -ops 40', 'thorough': '-n 2000 -ops 100', 'shards': {'quick': 2, 'thorough': 16}},
+                       # a relayer far behind: more than 100 batches of one token wait on one chain at the export
+                       {'name': 'genesis', 'quick': '-n 2 -ops 30 -many', 'thorough': '-n 16 -ops 40 -many', 'shards': {'quick': 1, 'thorough': 8}},
                        {'name': 'votesgen', 'quick': '-n 150 -ops 70', 'thorough': '-n 2000 -ops 150', 'shards': {'quick': 2, 'thorough': 16}},
                        {'name': 'oraclegen', 'quick': '-n 150 -ops 60', 'thorough': '-n 2000 -ops 120', 'shards': {'quick': 1, 'thorough': 8}},
                        {'name': 'reggen', 'quick': '-n 100 -ops 60', 'thorough': '-n 1000 -ops 120', 'shards': {'quick': 2, 'thorough': 16}}],
